@@ -22,18 +22,44 @@ type realCell struct {
 	Mode      int    `json:"mode"`
 	Transport string `json:"transport"`
 	Origin    string `json:"origin"`
+	Hooks     string `json:"hooks"` // default | onread | bufhooks | execute (see simHooks)
+	Chunk     int    `json:"chunk"` // bytes per Write call (0: everything in one call); many calls = many queue entries
 }
 
 var realOrigins = []string{"onopen", "ondata", "onclose", "goroutine", "writev", "sendfile", "ondial"}
 
+func chunkFor(hooks string, i int) int {
+	if hooks != "default" {
+		return 60 << 10 // one queue entry per call: a deep queue of entries the socket takes several at a time
+	}
+	return []int{0, 60 << 10, 1 << 20}[i%3]
+}
+
 func allCells() []realCell {
 	var cs []realCell
 	for m := 0; m < 3; m++ {
-		for _, t := range []string{"tcp", "unix"} {
-			for _, o := range realOrigins {
-				cs = append(cs, realCell{m, t, o})
+		for _, h := range simHooks {
+			for _, t := range []string{"tcp", "unix"} {
+				for _, o := range realOrigins {
+					cs = append(cs, realCell{m, t, o, h, chunkFor(h, len(cs))})
+				}
 			}
 		}
+	}
+	return cs
+}
+
+// quickCells: one cell per (mode, hooks) pair; transport, origin and write granularity rotate with the seed.
+func quickCells(seed int64, n int) []realCell {
+	var cs []realCell
+	k := int(seed % 1000)
+	if k < 0 {
+		k = -k
+	}
+	for i := 0; len(cs) < n; i++ {
+		m, h := (i/len(simHooks))%3, simHooks[i%len(simHooks)]
+		round := i / (3 * len(simHooks))
+		cs = append(cs, realCell{m, []string{"tcp", "unix"}[(i+k+round)%2], realOrigins[(i*5+k*3+round)%len(realOrigins)], h, chunkFor(h, i+k)})
 	}
 	return cs
 }
@@ -44,6 +70,9 @@ type realResult struct {
 	Received int64    `json:"received"`
 	Stalled  bool     `json:"stalled"`
 	Backlog  bool     `json:"backlog_before_reader"`
+	Entries  int      `json:"queue_entries_before_reader"`
+	SpinBlocked int64 `json:"epoll_wait_returns_in_80ms_while_blocked"`
+	SpinIdle    int64 `json:"epoll_wait_returns_in_80ms_after_drain"`
 	Ms       int64    `json:"ms"`
 	Detail   string   `json:"detail,omitempty"`
 	Conns    []string `json:"conns,omitempty"`
@@ -125,12 +154,16 @@ func runCell(cell realCell, total int, stall time.Duration) realResult {
 	var first *nbio.Conn
 	firstCh := make(chan *nbio.Conn, 1)
 	var once sync.Once
-	write := func(c *nbio.Conn) {
+	write0 := func(c *nbio.Conn) {
+		piece := cell.Chunk
 		switch cell.Origin {
 		case "writev":
+			if piece == 0 {
+				piece = 1 << 20
+			}
 			var bs [][]byte
-			for off := 0; off < total; off += 1 << 20 {
-				e := off + 1<<20
+			for off := 0; off < total; off += piece {
+				e := off + piece
 				if e > total {
 					e = total
 				}
@@ -142,7 +175,56 @@ func runCell(cell realCell, total int, stall time.Duration) realResult {
 			f.Seek(0, 0)
 			c.Sendfile(f, int64(total))
 		default:
-			c.Write(data)
+			if piece == 0 {
+				c.Write(data)
+				return
+			}
+			for off := 0; off < total; off += piece {
+				e := off + piece
+				if e > total {
+					e = total
+				}
+				if _, err := c.Write(data[off:e]); err != nil {
+					return
+				}
+			}
+		}
+	}
+	write := func(c *nbio.Conn) {
+		if cell.Hooks == "execute" {
+			c.Execute(func() { write0(c) }) // a job of the connection's serializer, run by the application's Execute hook
+			return
+		}
+		write0(c)
+	}
+	onData := func(c *nbio.Conn) {
+		if cell.Origin == "ondata" {
+			once.Do(func() { write(c) })
+		}
+	}
+	hooks := func(g *nbio.Engine) {
+		switch cell.Hooks {
+		case "onread": // the application reads by itself and re-arms a one-shot descriptor by itself
+			g.OnRead(func(c *nbio.Conn) {
+				buf := make([]byte, 16<<10)
+				for {
+					n, err := c.Read(buf)
+					if n > 0 {
+						onData(c)
+					}
+					if err != nil || n < len(buf) {
+						break
+					}
+				}
+				if cell.Mode == 2 {
+					c.ResetPollerEvent()
+				}
+			})
+		case "bufhooks":
+			g.OnReadBufferAlloc(func(c *nbio.Conn) *[]byte { b := make([]byte, 8<<10); return &b })
+			g.OnReadBufferFree(func(c *nbio.Conn, pbuf *[]byte) {})
+		case "execute":
+			g.Execute = func(f func()) { go f() }
 		}
 	}
 	readerDone := make(chan struct{})
@@ -176,6 +258,7 @@ func runCell(cell realCell, total int, stall time.Duration) realResult {
 			lateReader(c, 300*time.Millisecond, &got, readerDone)
 		}()
 		g = nbio.NewEngine(nbio.Config{NPoller: 1, EpollMod: em, EPOLLONESHOT: os1})
+		hooks(g)
 		if err := g.Start(); err != nil {
 			hx.Fatal("start: %v", err)
 		}
@@ -206,11 +289,8 @@ func runCell(cell realCell, total int, stall time.Duration) realResult {
 				firstCh <- c
 			}
 		})
-		g.OnData(func(c *nbio.Conn, d []byte) {
-			if cell.Origin == "ondata" {
-				once.Do(func() { write(c) })
-			}
-		})
+		g.OnData(func(c *nbio.Conn, d []byte) { onData(c) })
+		hooks(g)
 		g.OnClose(func(c *nbio.Conn, err error) {
 			mu.Lock()
 			a := first
@@ -253,11 +333,22 @@ func runCell(cell realCell, total int, stall time.Duration) realResult {
 			}
 		}
 	}
-	// did a backlog form before the reader started? (what makes the cell non-trivial)
-	time.Sleep(200 * time.Millisecond)
+	// did a backlog form before the reader started? (what makes the cell non-trivial) - and while the socket takes nothing
+	// and the peer does not read, the poller must be parked
+	time.Sleep(120 * time.Millisecond)
+	w0 := atomic.LoadInt64(&verifsys.RealWaits)
+	time.Sleep(80 * time.Millisecond)
+	res.SpinBlocked = atomic.LoadInt64(&verifsys.RealWaits) - w0
 	for _, l := range nbio.VerifDumpConns(g) {
 		if strings.Contains(l, "closed=false") && !strings.Contains(l, "queued=0 ") {
 			res.Backlog = true
+			if i := strings.Index(l, "queued="); i >= 0 {
+				var q int
+				fmt.Sscanf(l[i:], "queued=%d", &q)
+				if q > res.Entries {
+					res.Entries = q
+				}
+			}
 		}
 	}
 	// progress watch
@@ -277,6 +368,12 @@ func runCell(cell realCell, total int, stall time.Duration) realResult {
 	}
 	res.Received = atomic.LoadInt64(&got)
 	res.Ms = time.Since(t0).Milliseconds()
+	if !res.Stalled { // everything has arrived: an idle connection must not keep the poller busy
+		time.Sleep(20 * time.Millisecond)
+		w1 := atomic.LoadInt64(&verifsys.RealWaits)
+		time.Sleep(80 * time.Millisecond)
+		res.SpinIdle = atomic.LoadInt64(&verifsys.RealWaits) - w1
+	}
 	if res.Stalled && g != nil {
 		res.Conns = nbio.VerifDumpConns(g)
 	}
@@ -338,19 +435,15 @@ func idleSpin(rep *hx.Report, transport string, mode int) {
 func runReal(rep *hx.Report) {
 	cells := allCells()
 	n := *realN
-	if n < 0 || n > len(cells) {
+	full := n < 0 || n >= len(cells)
+	if full {
 		n = len(cells)
+	} else {
+		cells = quickCells(*seed, n)
 	}
 	total := *realMiB << 20
-	start := int((*seed * 7) % int64(len(cells)))
-	if start < 0 {
-		start = -start
-	}
 	for i := 0; i < n && !rep.TooMany(); i++ {
-		cell := cells[(start+i*11)%len(cells)]
-		if n == len(cells) {
-			cell = cells[i]
-		}
+		cell := cells[i]
 		res := runCell(cell, total, time.Duration(*stallSec)*time.Second)
 		if res.Stalled { // re-run once before reporting
 			rep.Stat("R.rerun")
@@ -361,7 +454,18 @@ func runReal(rep *hx.Report) {
 			}
 		}
 		mode := modeNames[cell.Mode]
-		rep.Case(fmt.Sprintf("R/%s/%s/%s", mode, cell.Transport, cell.Origin), res.Backlog)
+		rep.Case(fmt.Sprintf("R/%s/%s/%s/%s/%d", mode, cell.Transport, cell.Origin, cell.Hooks, cell.Chunk), res.Backlog)
+		rep.Stat("R.mode-hooks:" + mode + "/" + cell.Hooks)
+		if res.Entries > 3 {
+			rep.Stat("R.deep-queue(>3 entries)")
+		}
+		const spinLimit = 4000 // epoll_wait returns in 80 ms; a busy poller makes several 10^4
+		if res.SpinBlocked > spinLimit || res.SpinIdle > spinLimit {
+			rep.Add(hx.Finding{Kind: "oracle", Property: "C04", Signature: "spin-" + mode + "-" + cell.Origin,
+				What: fmt.Sprintf("real %s sockets, %s, hooks=%s: the poller returned from epoll_wait %d times in 80 ms while the socket took nothing and %d times in 80 ms after everything had arrived",
+					cell.Transport, mode, cell.Hooks, res.SpinBlocked, res.SpinIdle),
+				Replay: map[string]interface{}{"tier": "R", "result": res}})
+		}
 		if res.Backlog {
 			rep.Stat("R.backlog-before-reader")
 		}
@@ -370,12 +474,13 @@ func runReal(rep *hx.Report) {
 		rep.Stat("R.transport:" + cell.Transport)
 		rep.StatN("R.ms", int(res.Ms))
 		if *verbose {
-			fmt.Printf("real %s %s %s: %d/%d in %d ms stalled=%v %s\n", mode, cell.Transport, cell.Origin, res.Received, res.Total, res.Ms, res.Stalled, res.Detail)
+			fmt.Printf("real %s %s %s hooks=%s chunk=%d: %d/%d in %d ms entries=%d waits=%d/%d stalled=%v %s\n", mode, cell.Transport, cell.Origin, cell.Hooks, cell.Chunk,
+				res.Received, res.Total, res.Ms, res.Entries, res.SpinBlocked, res.SpinIdle, res.Stalled, res.Detail)
 		}
 		if res.Stalled {
 			rep.Add(hx.Finding{Kind: "oracle", Property: "C04", Signature: "stall-" + mode + "-" + cell.Origin,
-				What: fmt.Sprintf("real %s sockets, %s: %d of %d bytes received, then no progress for %d s (twice) %s", cell.Transport, mode,
-					res.Received, res.Total, *stallSec, res.Detail),
+				What: fmt.Sprintf("real %s sockets, %s, hooks=%s, %d bytes per Write: %d of %d bytes received, then no progress for %d s (twice) %s", cell.Transport, mode,
+					cell.Hooks, cell.Chunk, res.Received, res.Total, *stallSec, res.Detail),
 				Replay: map[string]interface{}{"tier": "R", "result": res, "rerun": fmt.Sprintf("wake -n 0 -real -1 -realmb %d", *realMiB)}})
 		}
 	}
@@ -383,7 +488,7 @@ func runReal(rep *hx.Report) {
 		kernelProbe(rep, "tcp")
 		kernelProbe(rep, "unix")
 		idleSpin(rep, "unix", 0)
-		if n == len(cells) {
+		if full {
 			idleSpin(rep, "tcp", 0)
 			idleSpin(rep, "unix", 1)
 			idleSpin(rep, "unix", 2)
